@@ -58,7 +58,11 @@ def index_container(kind, idx):
         return list(idx)
     if kind == 'tuple':
         return tuple(idx)
-    return np.array(idx, dtype=np.int64)
+    if kind == 'ndarray-bool':
+        raise ValueError('needs n')
+    dt = {'ndarray': np.int64, 'ndarray-u8': np.uint8, 'ndarray-i8': np.int8,
+          'ndarray-i32': np.int32, 'ndarray-u16': np.uint16}[kind]
+    return np.array(idx, dtype=dt)
 
 
 def build(ld, prog, fns=None, stage_prefix='s', hook=None):
@@ -112,7 +116,10 @@ def build(ld, prog, fns=None, stage_prefix='s', hook=None):
             kind, payload = op[1], op[2]
             if kind == 'slice':
                 ds = ds[slice(*payload)]
-            elif kind in ('list', 'tuple', 'ndarray'):
+            elif kind == 'ndarray-bool':
+                n = m.n if m is not None else 0
+                ds = ds[np.isin(np.arange(n), refmodel.resolve_index_form(payload, n))]
+            elif kind in ('list', 'tuple') or kind.startswith('ndarray'):
                 n = m.n if m is not None else 0
                 ds = ds[index_container(kind, refmodel.resolve_index_form(payload, n))]
             else:
@@ -248,7 +255,13 @@ def alphabet(n, kind, small=False):
     ops += [('slice', c, f) for c, f in
             [('list', 'empty'), ('list', 'first-first-last'), ('tuple', 'rev'),
              ('ndarray', 'mid'), ('ndarray', 'neg-all'), ('list', 'evens'),
-             ('tuple', 'mid'), ('ndarray', 'empty')]]
+             ('tuple', 'mid'), ('ndarray', 'empty'),
+             # other integer widths (numpy scalars of these types reach the
+             # stages' index arithmetic) and a boolean mask
+             ('ndarray-u8', 'mid'), ('ndarray-u8', 'evens'), ('ndarray-i8', 'neg-all'),
+             ('ndarray-i32', 'rev'), ('ndarray-u16', 'evens'), ('ndarray-bool', 'evens')]]
+    if n > 120:
+        ops = [o for o in ops if not (o[0] == 'slice' and o[1] in ('ndarray-u8', 'ndarray-i8'))]
     ops += [('slice', 'keylist', 'first'), ('slice', 'keytuple', 'last-first'),
             ('slice', 'keylist', 'all-rev'), ('slice', 'keytuple', 'first')]
     other = OTHER_DICT if kind == 'dict' else OTHER_LIST
